@@ -1,6 +1,6 @@
 //go:build verif
 
-//verif:bounds more C11 program shapes, contents symbolic as in zz_verif_c11.go: name_forms (parent-prefix ^ and ^^ names inside Scope directives and inside Devices nested two deep; relative and absolute multi-segment names and Scope targets that run through two nested Devices; a method declared through such a path), late_device (a name referring into a Device that is declared later through an absolute path), call_opargs (two-argument method invoked before and after its declaration with an operator expression as an argument, and as an operand of an operator), while_if (While body with a nested If followed by further statements; If body ending in a TermArg at its package end)
+//verif:bounds more C11 program shapes, contents symbolic as in zz_verif_c11.go: name_forms (parent-prefix ^ and ^^ names inside Scope directives and inside Devices nested two deep; relative and absolute multi-segment names and Scope targets that run through two nested Devices; a method declared through such a path), scope_root (Scope(\\) written as RootChar + NullName), late_device (a name referring into a Device that is declared later through an absolute path), call_opargs (two-argument method invoked before and after its declaration with an operator expression as an argument, and as an operand of an operator), while_if (While body with a nested If followed by further statements; If body ending in a TermArg at its package end)
 //verif:assumes shapes are enumerated (templates), contents are decided by the solver; error-message formatting stubbed; table = raw region of exactly header+program bytes
 package aml
 
@@ -10,13 +10,14 @@ import (
 
 // vfN is a node of a small AML program tree used to generate template programs.
 type vfN struct {
-	op      uint16   // pOpScope, pOpDevice, pOpName, pOpMethod
-	prefix  []byte   // raw bytes of the name string before its last segment (\, ^, dual/multi prefixes, leading segments)
-	name    vfName   // last segment
-	mflags  byte     // Method: flags byte
-	val     uint8    // Name: byte constant
-	kids    []*vfN   // Scope/Device/Method contents
-	expPath []vfName // expected named ancestors, outermost first (not used for Scope)
+	op       uint16   // pOpScope, pOpDevice, pOpName, pOpMethod
+	prefix   []byte   // raw bytes of the name string before its last segment (\, ^, dual/multi prefixes, leading segments)
+	name     vfName   // last segment
+	mflags   byte     // Method: flags byte
+	val      uint8    // Name: byte constant
+	kids     []*vfN   // Scope/Device/Method contents
+	expPath  []vfName // expected named ancestors, outermost first (not used for Scope)
+	nullName bool     // the name string is the prefix followed by a NullName (0x00) instead of a segment
 }
 
 func vfSegs(ns ...vfName) []byte {
@@ -30,6 +31,9 @@ func vfSegs(ns ...vfName) []byte {
 // enc returns the encoding of n and the expectations of n and its descendants (offsets relative to the first byte).
 func (n *vfN) enc() ([]byte, []vfExpect) {
 	ns := append(append([]byte{}, n.prefix...), n.name[:]...)
+	if n.nullName {
+		ns = append(append([]byte{}, n.prefix...), 0x00)
+	}
 	switch n.op {
 	case pOpName:
 		out := append(append([]byte{0x08}, ns...), 0x0a, n.val)
@@ -89,13 +93,15 @@ func vfByteName(prefix []byte, path []vfName) *vfN {
 	return &vfN{op: pOpName, prefix: prefix, name: vfNewName(), val: zzverif.U8("const"), expPath: path}
 }
 
-// Scope(\_SB_) {
-//   Device(D0) { Name(A0, b)  [Name(^P1, b)]  Device(D1) { Name(A1, b) [Name(^^P2, b)] [Name(^P3, b)] } }
-//   Name(^P0, b)                                  -- parent prefix directly inside a scope directive: the root
-//   Name(D0.D1.R1, b)                             -- relative multi-segment name through two devices
-// }
+//	Scope(\_SB_) {
+//	  Device(D0) { Name(A0, b)  [Name(^P1, b)]  Device(D1) { Name(A1, b) [Name(^^P2, b)] [Name(^P3, b)] } }
+//	  Name(^P0, b)                                  -- parent prefix directly inside a scope directive: the root
+//	  Name(D0.D1.R1, b)                             -- relative multi-segment name through two devices
+//	}
+//
 // Name(\_SB_.D0.D1.Q1, b)   Scope(\_SB_.D0.D1) { Name(Q2, b) }   Method(\_SB_.D0.D1.QM, f) {}   Name(\_SB_.D0.Q3, b)
 // Scope(\_SB_.D0) { [Name(^P4, b)] }
+//
 //verif:split 3
 func Verif_C11_name_forms() {
 	vfNames = nil
@@ -142,6 +148,7 @@ func Verif_C11_name_forms() {
 
 // Scope(\_SB_) { Name(D2.L1, b) }   Device(\_SB_.D2) { Name(B2, b) }: a name that refers into a Device declared later
 // through an absolute path can only be placed after the Device itself has been relocated (an extra resolve pass).
+//
 //verif:split 2
 func Verif_C11_late_device() {
 	vfNames = nil
@@ -153,6 +160,18 @@ func Verif_C11_late_device() {
 		&vfN{op: pOpScope, prefix: []byte{'\\'}, name: sb, kids: []*vfN{vfByteName(append([]byte{0x2e}, d2[:]...), inD2)}},
 		&vfN{op: pOpDevice, prefix: append([]byte{'\\', 0x2e}, sb[:]...), name: d2, expPath: inSB, kids: []*vfN{vfByteName(nil, inD2)}},
 	))
+}
+
+// Scope(\) { Name(N1, b)  Device(D0) { Name(N2, b) } }: the root scope named by a RootChar followed by a NullName.
+//
+//verif:split 2
+func Verif_C11_scope_root() {
+	vfNames = nil
+	d0 := vfNewName()
+	vfRun(vfProgOf(&vfN{op: pOpScope, prefix: []byte{'\\'}, nullName: true, kids: []*vfN{
+		vfByteName(nil, nil),
+		{op: pOpDevice, name: d0, expPath: nil, kids: []*vfN{vfByteName(nil, []vfName{d0})}},
+	}}))
 }
 
 // shape expectations for executable code: the object of the given opcode at offset off has the statement object at
@@ -229,6 +248,7 @@ func vfMethod(name vfName, flags byte, body []byte) ([]byte, int) {
 }
 
 // Method(C1,0){ FOO(Add(a,b,Local0), c) }  Method(FOO,2){}  Method(C2,0){ Add(FOO(d,e), f, Local0) }  Method(C3,0){ FOO(Add(a,b,Local0), c) }
+//
 //verif:split 3
 func Verif_C11_call_opargs() {
 	vfNames = nil
@@ -276,6 +296,7 @@ func Verif_C11_call_opargs() {
 }
 
 // Method(M,0){ While(One){ [If(One){ Store(a, Local0) | Return(One) }] Store(b, Local1) }  Store(c, Local2) }
+//
 //verif:split 3
 func Verif_C11_while_if() {
 	vfNames = nil
@@ -333,6 +354,7 @@ func Verif_C11_while_if() {
 
 // Method(FOO, n){}  Method(C,0){ While(One){ FOO(a1..an)  Store(b, Local1) } }  for every n in 0..7: a call inside a
 // deferred block is parsed strictly, with the argument count taken from the declaration.
+//
 //verif:split 2
 func Verif_C11_deferred_calls() {
 	vfNames = nil
